@@ -72,6 +72,8 @@ type Frame struct {
 	retVals  []Val
 	afterReturn func(rv []Val)
 	loopHead map[int]*Snapshot
+	iters    []*Cell
+	lastIter *iterStep
 }
 
 type State struct {
